@@ -65,7 +65,7 @@ def run_mutant(pid: str, m: dict, base: Path) -> dict:
             env=env,
             capture_output=True,
             text=True,
-            timeout=900,
+            timeout=3600,
         )
         out = p.stdout + p.stderr
         expect = m.get("expect", "fire")
